@@ -58,7 +58,8 @@ func (r *c39gReader) Read(p []byte) (int, error) {
 
 var c39gDocs = []c39gDoc{
 	// attributes (quoted, unquoted, empty, duplicate, upper case), entities in values and text
-	{name: "attrs+entities", in: `<A HREF="x&amp;y" b=c d e='&lt;&#65;&notit;' B=dup/>t&eacute;xt &amp &#x80; &NotEqualTilde;</a>`},
+	// (&nGt; / &nLt; expand to more bytes than their name: unescape leaves the in-place path)
+	{name: "attrs+entities", in: `<A HREF="x&amp;y" b=c d e='&lt;&#65;&notit;&nGt;' B=dup/>t&eacute;xt &amp &#x80; &NotEqualTilde;&amp;&nGt;</a>`},
 	// raw text elements: script with escaped comment, style, textarea/title (RCDATA) with entities
 	{name: "rawtext", in: "<script><!--<script></script>--></script><style>a<b</style><title>&lt;<i></TITLE><textarea>\r\n&amp;</textarea>x"},
 	// comments in all their terminations, doctype, bogus comments, processing instruction
@@ -74,7 +75,7 @@ var c39gDocs = []c39gDoc{
 	// SetMaxBuf: a token longer than the limit ends the run with ErrBufferExceeded
 	{name: "maxbuf", in: "<a>ok<!--" + strings.Repeat("0123456789", 3) + "-->tail", maxBuf: 16},
 	// low-level API
-	{name: "tagapi", in: `<Div ID=1 class="a b">x &gt; y</DIV><br/><input VALUE='&quot;'>`, tagAPI: true},
+	{name: "tagapi", in: `<Div ID=1 class="a b">x &gt; y &gt;&nLt;</DIV><br/><input VALUE='&quot;&nLt;'>`, tagAPI: true},
 }
 
 // The two functions below are textually the same; one runs the instrumented
